@@ -100,6 +100,21 @@ ModelClauses(b, sel) ==
          LET vw == ViewImpl(b, sel, sk) IN
          /\ FlattenImpl(b, RestrictImpl(vw, RowsInUse(b, ns, FALSE))) = DofsOf(b, cl, (all \ sk) \cap ns)      \* keep, all
          /\ FlattenImpl(b, RestrictImpl(vw, RowsInUse(b, ns, TRUE))) = DofsOf(b, cl, (all \ sk) \ ns),         \* drop
+    \* successive filters intersect: every pair (and triples) of keep / drop on a view built with a skip set, for all
+    \* name sets; evaluated on the argument-free query and on cell {1} (thorough: on the selections {1} of each kind)
+    FilterComposition |-> (sel.kind = "none" \/ (Thorough /\ sel.ids = <<1>>) \/ (sel.kind = "elements" /\ sel.ids = <<1>>)) =>
+       \A sk \in {{}} \cup {{CHOOSE x \in all : TRUE}} : \A n1 \in SUBSET all : \A n2 \in SUBSET all :
+         LET vw == ViewImpl(b, sel, sk)
+             K(v, ns) == RestrictImpl(v, RowsInUse(b, ns, FALSE))
+             D(v, ns) == RestrictImpl(v, RowsInUse(b, ns, TRUE))
+             a0 == all \ sk
+         IN /\ FlattenImpl(b, K(K(vw, n1), n2)) = DofsOf(b, cl, (a0 \cap n1) \cap n2)
+            /\ FlattenImpl(b, D(K(vw, n1), n2)) = DofsOf(b, cl, (a0 \cap n1) \ n2)
+            /\ FlattenImpl(b, K(D(vw, n1), n2)) = DofsOf(b, cl, (a0 \ n1) \cap n2)
+            /\ FlattenImpl(b, D(D(vw, n1), n2)) = DofsOf(b, cl, (a0 \ n1) \ n2)
+            /\ FlattenImpl(b, K(D(K(vw, n1), n2), all)) = DofsOf(b, cl, (a0 \cap n1) \ n2)
+            /\ FlattenImpl(b, K(K(D(vw, n1), n2), n1)) = DofsOf(b, cl, ((a0 \ n1) \cap n2) \cap n1)
+            /\ FlattenImpl(b, D(K(D(vw, n2), all), n1)) = DofsOf(b, cl, (a0 \ n2) \ n1),
     ByKindNames |-> \A sk \in SmallSkips(b) : \A kc \in Kinds : \A nm \in all :
          DictImpl(b, ViewImpl(b, sel, sk), kc, nm) = DofsOfKind(b, cl, kc, (all \ sk) \cap {nm}),
     UnionView |-> \A s2 \in OtherSels(sel, CountOf(b, sel)) :
@@ -129,7 +144,7 @@ Query == /\ sg # <<>> /\ sel = <<>>
 Next == Connect \/ PickSig \/ Query
 Spec == Init /\ [][Next]_vars
 
-NameGroup == {"SkipFilter", "NameFilter", "ByKindNames", "UnionViewSkip"}
+NameGroup == {"SkipFilter", "NameFilter", "ByKindNames", "UnionViewSkip", "FilterComposition"}
 \* main configuration: everything holds, except that for the signatures of SigsNamed (edge and facet DOFs named
 \* differently) the name-dependent clauses are left to MC_C07_names.cfg / MC_C07_fixed.cfg
 ClausesHold  == IF sg \in SigsNamed THEN failed \ NameGroup = {} ELSE failed = {}
